@@ -178,6 +178,28 @@ def _deep_programs(tier: str):
     for c1 in ([9], [10], [9, -1], [9, 1]):
         for c2 in ([9], [10], [1], []):
             yield {"scripts": [[0], c1, c2], "starts": [[0, 1, "spawn"], [0, 1, "create"]]}
+    # SEVERAL spawns into one async scope from different positions / by different tasks (each child
+    # starts from the state visible where IT was spawned), also with two tasks taking their step
+    # in the same loop iteration
+    for root, starts in (
+        ([2, 1, 3], [[0, 1, "spawn"], [0, 2, "spawn"]]),
+        ([2, 1, 3], [[0, 2, "spawn"], [0, 3, "spawn"]]),
+        ([2, 1, 3], [[0, 1, "spawn"], [0, 3, "spawn"]]),
+        ([2, 3], [[0, 2, "spawn"], [0, 1, "spawn"]]),
+        ([2, 1, -1], [[0, 2, "spawn"], [0, 3, "spawn"]]),
+        ([2], [[0, 1, "spawn"], [1, 1, "spawn"]]),
+        ([2, 1], [[0, 1, "spawn"], [1, 2, "spawn"]]),
+    ):
+        for c1 in ([], [1], [3], [1, 3]):
+            for c2 in ([], [1]):
+                if any(st[0] == 1 and st[1] > len(c1) for st in starts):
+                    continue
+                yield {"scripts": [root, c1, c2], "starts": starts}
+                if len(c1) <= 1:
+                    yield {"scripts": [root, c1, c2], "starts": starts, "batch": 2}
+                if starts[1][0] == 0:
+                    # the root enters its blocks and spawns both children within ONE step
+                    yield {"scripts": [root, c1, c2], "starts": starts, "nopause": True}
     # VERY deep nesting (9, 12 levels) in one task next to an observer
     for d in (9, 12) if tier == "quick" else (9, 12, 17):
         for pattern in ((1,), (1, 3, 0)):
@@ -199,7 +221,7 @@ def explore_config(tier: str, program) -> dict:
 
 
 def execute(program, ch: Chooser) -> Result:  # noqa: C901, PLR0915
-    w = World(ch)
+    w = World(ch, batch=program.get("batch", 1))
     viols: list[dict] = []
     supplied: dict[int, str] = {}
     keep: list = []
@@ -268,7 +290,8 @@ def execute(program, ch: Chooser) -> Result:  # noqa: C901, PLR0915
         probe(tid, env, in_scope, soft, "start")
         for i, op in enumerate(script):
             maybe_start(i)
-            await w.pause(f"t{tid}.{i}")
+            if not (program.get("nopause") and tid == 0):
+                await w.pause(f"t{tid}.{i}")  # (nopause: the root runs its whole script in ONE step)
             if any(not t.done() for k, t in tasks.items() if k != tid):
                 if op >= 0:
                     interesting[0] = True  # (incl. op 5)
